@@ -200,6 +200,25 @@ def make_elements(spec: NetSpec, names=None, override=None):
     return obj
 
 
+def integer_typed(spec: NetSpec, P: dict):
+    """The same kind of network with every whole-number-valued quantity given as a Python INT (legal, if unusual):
+    returns (spec with rounded link/origin parameters, override for make_elements with int objects, model parameters
+    with eta / kappa / phi as ints)."""
+    from dataclasses import replace as _r
+    links = tuple(_r(l, L=float(max(1, round(l.L))), rho_max=float(round(l.rho_max)), rho_crit=float(round(l.rho_crit)),
+                     v_free=float(round(l.v_free)), a=float(max(2, round(l.a))), beta=float(max(1, round(l.beta)))) for l in spec.links)
+    origins = tuple(_r(o, C=float(round(o.C))) for o in spec.origins)
+    sp = _r(spec, links=links, origins=origins)
+    ov = {}
+    for i, l in enumerate(links):
+        for p in ("L", "rho_max", "rho_crit", "v_free", "a", "beta"):
+            ov[(f"L{i}", p)] = int(getattr(l, p))
+    for o in origins:
+        ov[(f"O{o.node}", "C")] = int(o.C)
+    Pi = {k: (int(round(v)) if k in ("eta", "kappa", "phi") else v) for k, v in P.items()}
+    return sp, ov, Pi
+
+
 def touch_lookups(net):
     """Reads every lookup the network offers (so that each memoised entry exists)."""
     _ = (net.nodes_by_name, net.links_by_name, net.nodes_by_link, net.origins, net.origins_by_name, net.origins_by_node,
